@@ -130,6 +130,7 @@ def sub_history(inp):
       'reevent' p.but(pattern=p.pattern.but(behaviour=<the behaviour of a neutral property>)) when that passes the sanity check
       'global' p.but(scope=globally) when that passes the sanity check
       'renest' the same alternatives nested differently inside their disjunctions (left-leaning, balanced), built through the API
+      'rename' the activator's alias renamed everywhere through but() / replace_var_reference() on the same event objects
       'member' canonical_form of a member of an earlier result
     """
     from hpl.ast import HplScope
@@ -189,6 +190,28 @@ def sub_history(inp):
             st, q = core.guarded(_renested)
             if st == 'ok':
                 results.append(run_on(q, 'renest'))
+        elif kind == 'rename':
+            # a copy in which an alias bound by the (simple) activator is renamed everywhere, made from the SAME event
+            # objects through but() / replace_var_reference(), after canonical_form has already seen them
+            from hpl.ast import HplVarReference
+
+            act = p.scope.activator
+            if act is not None and astx.cname(act) == 'HplSimpleEvent' and act.alias:
+                old_name = act.alias
+
+                def _renamed():
+                    ref = HplVarReference('@Q9')
+                    kw = {'behaviour': p.pattern.behaviour.replace_var_reference(old_name, ref)}
+                    if p.pattern.trigger is not None:
+                        kw['trigger'] = p.pattern.trigger.replace_var_reference(old_name, ref)
+                    skw = {'activator': act.but(alias='Q9')}
+                    if p.scope.terminator is not None:
+                        skw['terminator'] = p.scope.terminator.replace_var_reference(old_name, ref)
+                    return p.but(scope=p.scope.but(**skw), pattern=p.pattern.but(**kw))
+
+                st, q = core.guarded(_renamed)
+                if st == 'ok':
+                    results.append(run_on(q, 'rename'))
         elif kind == 'member':
             r = results[step[1] % len(results)]
             q = r[step[2] % len(r)]
@@ -214,7 +237,7 @@ def build_history(ch):
     m, _info = gen.properties(ch, depth=ch.int(0, 1), wild_time=False, shape=shape)
     steps = []
     for _ in range(ch.int(2, 5)):
-        k = ch.pick(['same', 'twin', 'twin', 'retime', 'retime', 'reevent', 'global', 'member', 'renest', 'renest', 'renest'])
+        k = ch.pick(['same', 'twin', 'twin', 'retime', 'retime', 'reevent', 'global', 'member', 'renest', 'renest', 'renest', 'rename', 'rename'])
         if k == 'twin':
             steps.append((k, ch.pick(['t1', 't2', 't3'])))
         elif k == 'retime':
